@@ -7,102 +7,102 @@ ids=[p['id'] for p in props]
 CLAIMS = {
  "C01": dict(
    technique="runtime monitoring: differential twin (matrix form vs scalar form in the same build) + independent reference arithmetic over a systematic operator x kind x shape-pair sweep; dispatch-arm coverage monitor",
-   text="Every swept cell (17 operators x 16 kinds x up to 110 shape pairs, 1-3 value draws) is executed through Interpreter::interpret on API-bound operands and judged elementwise against scalar evaluations and exact/IEEE reference arithmetic; incompatible shapes must be errors. Held on the executions produced, nothing is claimed for unvisited shapes or values.",
+   text="Every swept cell (17 operators x 16 kinds x up to 110 shape pairs, 1-3 value draws) is executed through Interpreter::interpret on API-bound operands and judged elementwise against scalar evaluations and exact/IEEE reference arithmetic; incompatible shapes must be errors. Held on the executions produced, nothing is claimed for unvisited shapes or values. Each operand is written as an API-bound variable or as an inline literal (all four combinations; comparison operands come from a small pool so ties are frequent).",
    note="Trusts: the harness' reference arithmetic (i128/u128 checked, Rust f64/f32 primitives), canonicalisation through Matrix::as_vec/shape, and that binding operands with ProgramState::save_symbol is equivalent to defining them in source (a literal-built stratum cross-checks this).",
    ref="6/C01"),
  "C03": dict(
    technique="runtime monitoring: 1-based column-major reference selection model over a systematic kind x shape x index-form x boundary-variant sweep; before/after symbol snapshots (read purity); ASan flavour in thorough",
-   text="Every cell (16 kinds x 11 shapes x 31 index forms x in-range and each boundary out-of-range variant) is interpreted on a matrix whose elements encode their own linear index and compared with the reference selection (elements, order, count, documented 2-D shape); out-of-range and wrong-length masks must be errors; the symbol table must be unchanged by the read.",
+   text="Every cell (16 kinds x 11 shapes x 31 index forms x in-range and each boundary out-of-range variant) is interpreted on a matrix whose elements encode their own linear index and compared with the reference selection (elements, order, count, documented 2-D shape); out-of-range and wrong-length masks must be errors; the symbol table must be unchanged by the read. Index expressions are written inline or bound to variables first; one mask in six selects nothing.",
    note="Trusts the harness reference selector and canonicalisation; 'supported' forms are learned from the in-range read of the same cell (forms listed in docs/reference/indexing.mec must be supported on general matrices).",
    ref="6/C03"),
  "C04": dict(
    technique="runtime monitoring: reference store (model matrix + C01 reference arithmetic) compared with full-variable snapshots after every assignment statement; frame and failure-atomicity monitors; histories of 3-8 assignments; ASan flavour in thorough",
-   text="Every cell (kind x shape x index form x operator {=,+=,-=,*=,/=} x source {scalar, vector, wrong kind} x in-range / out-of-range variant) runs one statement in a session holding the target, a bystander and then compares every element, the shape, the kind, the bystander and the read-back with the model; failing statements must leave all symbols unchanged.",
+   text="Every cell (kind x shape x index form x operator {=,+=,-=,*=,/=} x source {scalar, vector, wrong kind} x in-range / out-of-range variant) runs one statement in a session holding the target, a bystander and then compares every element, the shape, the kind, the bystander and the read-back with the model; failing statements must leave all symbols unchanged. Index expressions of the target are written inline or bound to variables first; all-false masks included.",
    note="Trusts the harness model; sources are written as typed literals (N<kind>); a statement form that fails on in-range input is treated as unsupported and only its atomicity is judged.",
    ref="6/C04"),
  "C05": dict(
    technique="runtime monitoring: copy-semantics reference store compared with deep snapshots of Interpreter::symbols() after every statement of a session (alias matrix, invalid-statement classes, random sessions)",
-   text="Sessions are interpreted one statement at a time; after each statement every name other than the statement's target must be bitwise unchanged, the set of names must match, the stated invalid classes must be errors, and any error must leave the whole store unchanged. The alias matrix enumerates every way y can be bound from x against every mutation of x for 8 value kinds.",
+   text="Sessions are interpreted one statement at a time; after each statement every name other than the statement's target must be bitwise unchanged, the set of names must match, the stated invalid classes must be errors, and any error must leave the whole store unchanged. The alias matrix enumerates every way y can be bound from x against every mutation of x for 8 value kinds. Further strata: definitions whose value cannot be converted to the annotated kind, functions that assign to a parameter, the op-assignment kernels called by name, assignments through ans, and every registered native function and unary / postfix operator applied to variables (the operand and every other binding must keep their values, then the operand is mutated and the result must keep its value).",
    note="For the target of a successful statement the model adopts the implementation's value. Random sessions are composed only from constructs that are isolation-clean on their own (aliasing define forms are exercised in the alias matrix, where each failing cell is an exactly listed known finding).",
    ref="6/C05"),
  "C13": dict(
    technique="runtime monitoring: differential oracle (Rust's correctly rounded str::parse, exact u128/i128 parsing, gcd reduction) over literal spellings generated from the specification grammar, cell sweep form x kind x magnitude x style",
-   text="Every literal is interpreted alone and its canonical value (kind and bits) is compared with the number the spelling denotes; out-of-range typed literals may only clamp to the kind bound or fail, a zero denominator must fail, and a valid in-range spelling must not be an error. Held on the spellings generated; digits are random inside each cell.",
+   text="Every literal is interpreted alone and its canonical value (kind and bits) is compared with the number the spelling denotes; out-of-range typed literals may only clamp to the kind bound or fail, a zero denominator must fail, and a valid in-range spelling must not be an error. Held on the spellings generated; digits are random inside each cell. Also: signed and float kind suffixes, optional-kind annotations, and based literals with a character that is not a digit of the base (must not evaluate).",
    note="Trusts Rust's float parser as the nearest-value oracle and the harness generator's reading of specification section 4.2 (underscores only inside float digit sequences; signed kinds via annotation).",
    ref="6/C13"),
  "C15": dict(
    technique="runtime monitoring: exact rational progression model compared term by term with interpreted ranges over a kind x form x scenario sweep with random magnitudes; chk and rel flavours",
-   text="For each cell the API-bound operands a, s, b of one kind are interpreted through a..b, a..=b, a..s..b, a..s..=b; the result must be exactly the progression (count, every term, kind), unbuildable ranges must be an error or empty, and x[a..=b] must select what the range value lists.",
+   text="For each cell the API-bound operands a, s, b of one kind are interpreted through a..b, a..=b, a..s..b, a..s..=b; the result must be exactly the progression (count, every term, kind), unbuildable ranges must be an error or empty, and x[a..=b] must select what the range value lists. Start, step and end are each a variable, an inline literal or a name bound by an enclosing comprehension generator (with decoy globals); spans wider than the kind maximum and the full span of the 8-bit kinds are included.",
    note="Trusts the harness' exact rational arithmetic; inexact decimal float steps are judged within 1 ulp and without a count; orientation of the result vector is not judged.",
    ref="6/C15"),
  "C02": dict(
    technique="runtime monitoring: independent 5-level left-associative reference parser; each formula is compared with its fully parenthesised rendering and with a node-by-node evaluation of the reference tree (one interpreter call per binary node)",
-   text="All operator sequences up to length 3, sampled/exhaustive length 4 and type-directed chains up to length 8 (with unary -, !, transpose and **) are interpreted unparenthesised, fully parenthesised by the reference grouping, and stepwise; the three results must be the same canonical value. Random explicit parenthesisations are checked against their own tree.",
+   text="All operator sequences up to length 3, sampled/exhaustive length 4 and type-directed chains up to length 8 (with unary -, !, transpose and **) are interpreted unparenthesised, fully parenthesised by the reference grouping, and stepwise; the three results must be the same canonical value. Random explicit parenthesisations are checked against their own tree. Operands are variables or inline literals; chains over real and imaginary literal operands (3 + 4i * 1i) are included.",
    note="Trusts the harness' reading of the specification's precedence table; operand values are chosen so that a different grouping changes the value (non-commutative, negative, zero, fractional).",
    ref="6/C02"),
  "C11": dict(
    technique="runtime monitoring: reference block placement compared with interpreted literals over an exhaustive enumeration of tilings (compositions of heights x compositions of widths) x element kinds, with off-by-one and mixed-kind invalid variants; ASan flavour in thorough",
-   text="Every tiling of a result up to 4x4 by 1-4 block rows of 1-4 blocks (and sampled larger ones) is built from API-bound blocks with pairwise distinct contents and interpreted as a matrix literal; the value must be exactly the block matrix with the element kind preserved, and a block one row too tall, one column too wide or of another kind must make the literal an error.",
+   text="Every tiling of a result up to 4x4 by 1-4 block rows of 1-4 blocks (and sampled larger ones) is built from API-bound blocks with pairwise distinct contents and interpreted as a matrix literal; the value must be exactly the block matrix with the element kind preserved, and a block one row too tall, one column too wide or of another kind must make the literal an error. Literals with 5-8 block rows / blocks per row (n-ary kernels) are included; blocks are written as variables, inline literals or slice expressions, and rows are separated by `; `, `;` + newline or a newline.",
    note="Trusts the harness placement model; quick enumerates all tilings for f64 and a seeded subset for the other kinds, thorough all tilings for all kinds.",
    ref="6/C11"),
  "C12": dict(
    technique="runtime monitoring: exact representability oracle (big-integer / dyadic / rational), trunc-and-clamp rule, scalar-vs-matrix differential twin, column-major reshape model and distinct-element model over a kind-pair x value-group sweep",
-   text="For every ordered pair of numeric kinds, boundary and random values that the target can represent must convert to exactly that number, floats must truncate toward zero and clamp into integer kinds, matrix conversion must equal the scalar rule elementwise and keep the shape; all reshapes up to 16 elements must be column-major (unequal counts fail); string->number fails; matrix->set keeps the distinct elements.",
+   text="For every ordered pair of numeric kinds, boundary and random values that the target can represent must convert to exactly that number, floats must truncate toward zero and clamp into integer kinds, matrix conversion must equal the scalar rule elementwise and keep the shape; all reshapes up to 16 elements must be column-major (unequal counts fail); string->number fails; matrix->set keeps the distinct elements. Also: option annotations (<k?>), matrix -> set of another kind against the scalar conversions of the elements, and reshapes through the wildcard element kind <[*]:r,c>.",
    note="Pairs for which every value is rejected are treated as 'no conversion' (allowed by the property). Unconstrained cases (narrowing integers, inexact floats) are only judged through the matrix-vs-scalar twin.",
    ref="6/C12"),
  "C14": dict(
    technique="runtime monitoring: mathematical-set reference model over small universes with several spellings per element; structural invariant monitor (distinct elements, single kind, size = cardinality) applied to every set value observed",
-   text="Pairs of subsets of 5-element universes (f64, signed zeros, u8, i64, rationals with unreduced spellings, strings, bools, tuples, nested sets with permuted inner orders) are written as literals in permuted insertion orders and combined with every set operator, relation and membership test, chained, and built by comprehensions; results are compared with the mathematical result after mapping elements back to universe ids learned from singleton literals.",
+   text="Pairs of subsets of 5-element universes (f64, signed zeros, u8, i64, rationals with unreduced spellings, strings, bools, tuples, nested sets with permuted inner orders) are written as literals in permuted insertion orders and combined with every set operator, relation and membership test, chained, and built by comprehensions; results are compared with the mathematical result after mapping elements back to universe ids learned from singleton literals. Operands are written as variables or inline literals in every combination; sets converted from matrices with repeated entries and literals of mixed element kinds (must be rejected) are included.",
    note="Element identity is the language's own equality (0 = -0, 2/4 = 1/2, {1,2} = {2,1}). Universes whose spellings exercise a recorded defect (signed zeros, permuted inner sets) are separate cells so the plain universes stay fully monitored.",
    ref="6/C14"),
  "C06": dict(
    technique="runtime monitoring: differential execution (interpreter session A vs compile -> from_bytes -> run_program in a FRESH interpreter B) over a construct sweep and typed composite programs; every stage under catch_unwind in a subprocess; unregistered-function attribution by compiling each plan step alone; ASan flavour in thorough",
-   text="Each generated program is interpreted, compiled, loaded and run in a fresh interpreter; canonical results must be equal, restricted-class programs must compile, load and run, and no stage may panic, hang or abort. Failures are attributed to the plan arm whose bytecode names an unregistered function.",
+   text="Each generated program is interpreted, compiled, loaded and run in a fresh interpreter; canonical results must be equal, restricted-class programs must compile, load and run, and no stage may panic, hang or abort. Failures are attributed to the plan arm whose bytecode names an unregistered function. Programs end in a bare expression half of the time, contain non-ASCII strings and names, matrices of every integer kind, complex and rational arithmetic, and a sweep of every registered native function x 37 argument shapes; for assignment-free programs the loaded plan is re-evaluated once (step) and must give the same result.",
    note="Only the program result is compared (the compiler emits no symbol section, so a fresh interpreter has no variables to compare). Composite programs are mostly drawn from the constructs whose bytecode is registered so that recorded registry gaps do not mask the rest.",
    ref="6/C06"),
  "C07": dict(
    technique="runtime monitoring: exhaustive truncation / single-bit-flip / burst enumeration and CRC-repaired structural mutation of emitted files against the real loader, with a counting global allocator (largest request, peak), catch_unwind and a subprocess watchdog as monitors; round-trip and decoded-vs-CompileCtx comparison",
-   text="For every corpus file: to_bytes(from_bytes(b)) = b and the decoded header, constants and instructions equal what the compiler holds; every truncation, every single-bit flip and bursts up to 32 bits must be rejected; hostile header fields, hostile words over every body byte, splices and random byte strings (checksum recomputed) must neither panic, abort, exceed the allocation bound nor hang the loader, the constant decoder or the re-encoder.",
+   text="For every corpus file: to_bytes(from_bytes(b)) = b and the decoded header, constants and instructions equal what the compiler holds; every truncation, every single-bit flip and bursts up to 32 bits must be rejected; hostile header fields, hostile words over every body byte, splices and random byte strings (checksum recomputed) must neither panic, abort, exceed the allocation bound nor hang the loader, the constant decoder or the re-encoder. Every decoded constant is re-encoded and must reproduce the bytes it was decoded from; a decode error on an emitted file is a violation; mutated files also go through the path-based loader (load_program_from_file), which must agree with from_bytes.",
    note="Bound: largest single request <= 64 MiB + 64 x file length; the monitor refuses requests above 1 GiB so they are observed as aborts. Hangs surface through the watchdog as inconclusive (never a verdict by wall-clock).",
    ref="6/C07"),
  "C19": dict(
    technique="runtime monitoring: snapshot comparison across independent interpreters, across step(0,n) vs n single steps, and across separate worker processes (digest of all snapshots per program compared by the driver); invariance monitor for assignment-free programs",
-   text="Each generated program is interpreted and its plan re-run for n in {1,2,3,7} steps in fresh interpreters; snapshots of all variables must agree between two interpreters, between one n-step request and n single steps, and (through digests) between 3 (quick) / 8 (thorough) separate processes with different hash seeds; programs without assignment statements must keep every variable exactly as the first evaluation left it.",
+   text="Each generated program is interpreted and its plan re-run for n in {1,2,3,7} steps in fresh interpreters; snapshots of all variables must agree between two interpreters, between one n-step request and n single steps, and (through digests) between 3 (quick) / 8 (thorough) separate processes with different hash seeds; programs without assignment statements must keep every variable exactly as the first evaluation left it. The corpus of 632 test programs and a sweep of every registered native function x argument shapes (variables and literals) are stepped too; a profiled interpreter must take the same steps.",
    note="Panics escaping step() are caught and reported; the digest covers the snapshot after interpret and after every step count.",
    ref="6/C19"),
  "C08": dict(
    technique="runtime monitoring: round-trip oracle parse -> format -> parse with structural comparison of the serialised syntax trees (source ranges and whitespace tokens erased), idempotence check, and a semantic twin (both trees interpreted, results and symbols compared) over a static corpus, generated composites and the repository's documents",
-   text="632 corpus programs (harvested once from the repository's tests, covering every grammar construct), seeded typed composites and every .mec document are formatted; the text must re-parse to the same normalised tree, be a fixed point of formatting, and (for executable programs) evaluate to the same result and symbols. Differences are classified by the value-free path of the first differing node or by the construct responsible for an unparsable output.",
+   text="632 corpus programs (harvested once from the repository's tests, covering every grammar construct), seeded typed composites and every .mec document are formatted; the text must re-parse to the same normalised tree, be a fixed point of formatting, and (for executable programs) evaluate to the same result and symbols. Differences are classified by the value-free path of the first differing node or by the construct responsible for an unparsable output. A fourth stratum sweeps surface forms: subscript chains in every position, 46 operator spellings and ordered operator pairs with both parenthesisations, unary forms, kind annotations of every kind constructor, function definitions and calls.",
    note="The text formatter has many recorded emitter defects (multi-row matrices, tables, state machines, documents); composites are drawn mostly from constructs that round-trip so the remaining emitters stay monitored; failing documents are listed exactly.",
    ref="6/C08"),
  "C09": dict(
    technique="runtime monitoring: totality oracle over hostile inputs in subprocess workers (panic, abort, stack overflow and hang are observed as process events), a step clock and per-loop progress guard hooked into the parser (cfg mech_verif), determinism digests across replica workers, parser error reports checked against the input (ranges inside the text, format_error total); thorough adds an strace stage (no file or network syscall between the begin/end markers while parsing)",
-   text="Corpus programs, repository documents and byte/char/token-level mutations of them (truncation, splice, deletion, duplication, deep nesting, unicode, NUL and control bytes, unbalanced delimiters) are parsed in isolated workers: every input must return a tree or a report within the step budget, every parser loop iteration must consume input, two replica workers must produce identical digests, and every reported error range must lie inside the input and be renderable.",
+   text="Corpus programs, repository documents and byte/char/token-level mutations of them (truncation, splice, deletion, duplication, deep nesting, unicode, NUL and control bytes, unbalanced delimiters) are parsed in isolated workers: every input must return a tree or a report within the step budget, every parser loop iteration must consume input, two replica workers must produce identical digests, and every reported error range must lie inside the input and be renderable. Further strata: a Mechdown vocabulary (fences of 30 info strings, $$, links, images, footnotes, lists, callouts, tables, Mika faces), structured front matter (keys x value forms) and 36 well-formed and malformed patterns in 7 pattern positions.",
    note="The step budget is a logical clock (parser combinator entries), not wall time; a wall-clock watchdog firing is inconclusive. Three parser defects found this way are repaired in /repo (fix: commits); error reports that carry the default 0:0 range are a recorded finding.",
    ref="6/C09"),
  "C10": dict(
    technique="runtime monitoring: differential oracle interpret(document) vs interpret(code only) on canonical symbol tables; per-namespace reference sessions compared with the sub-interpreters' symbol tables; static prose corpus swept by snippet x position and by ordered snippet pairs",
-   text="Every prose snippet of a static 45-element corpus at every position of a program, every ordered pair of adjacent snippets, and seeded interleavings of generated programs with prose must leave the final variables exactly as the code alone leaves them; statements distributed over named fences must populate one isolated namespace per name (split fences share it), leak nothing into the unnamed program, and a failing statement inside a named fence must not stop the rest of the document.",
+   text="Every prose snippet of a static 45-element corpus at every position of a program, every ordered pair of adjacent snippets, and seeded interleavings of generated programs with prose must leave the final variables exactly as the code alone leaves them; statements distributed over named fences must populate one isolated namespace per name (split fences share it), leak nothing into the unnamed program, and a failing statement inside a named fence must not stop the rest of the document. The corpus includes comments and prose with assignment-like tails after a semicolon.",
    note="The prose corpus is static and hand written from the Mechdown documentation; code blocks and prose are separated by blank lines.",
    ref="6/C10"),
  "C20": dict(
    technique="runtime monitoring: independent reference expander (line-exact substitution, CommonMark-style fence rule, cycle = revisit on the current inclusion path) compared byte for byte with mech::read_mech_source_file on generated directory trees; exhaustive enumeration of include-edge subsets; thorough adds an strace stage (only read-only opens inside the tree, as many as the reference performs expansions)",
-   text="For every subset of include edges over 3 files (and sampled / all subsets over 4 files) in 3 directories, with decorated include lines, fenced and brace look-alikes, repeated includes, missing targets, CRLF, missing trailing newline and a symlinked alias, loading the root must give exactly the reference expansion, report reachable cycles as circular includes, never report acyclic graphs as circular, and name missing files.",
+   text="For every subset of include edges over 3 files (and sampled / all subsets over 4 files) in 3 directories, with decorated include lines, fenced and brace look-alikes, repeated includes, missing targets, CRLF, missing trailing newline and a symlinked alias, loading the root must give exactly the reference expansion, report reachable cycles as circular includes, never report acyclic graphs as circular, and name missing files. Fence variants include lines that look like closers but are not, includes after the fence block, CRLF line ends, files that end in a fence or are empty, repeated includes on acyclic graphs, and brace lines containing .mec without ending in it.",
    note="Trees are written under /verif/work/ and removed after each case; when a cycle and a missing file are both reachable either error is accepted.",
    ref="6/C20"),
  "C16": dict(
    technique="runtime monitoring: reference evaluator of arm lists (first arm in source order whose pattern matches and whose guard holds, with bindings) compared with interpreted calls over every permutation of arm families and every argument of a small domain; recurrences checked against closed forms; subprocess isolation for stack exhaustion",
-   text="Functions (one and two parameters) and match expressions built from literal, variable, wildcard, tuple, array and enum-payload patterns, with guards, are evaluated for every permutation of their arms on every argument of a small domain; arm bodies are tagged so that the selected arm and its binding are visible in the result. Factorial, fibonacci, power, gcd and a tail-recursive countdown (depth 2*10^4 quick, 2*10^5 thorough) are compared with the recurrence; scalar functions are applied to matrices; wrong arity, no matching arm and non-exhaustive matches must be errors.",
+   text="Functions (one and two parameters) and match expressions built from literal, variable, wildcard, tuple, array and enum-payload patterns, with guards, are evaluated for every permutation of their arms on every argument of a small domain; arm bodies are tagged so that the selected arm and its binding are visible in the result. Factorial, fibonacci, power, gcd and a tail-recursive countdown (depth 2*10^4 quick, 2*10^5 thorough) are compared with the recurrence; scalar functions are applied to matrices; wrong arity, no matching arm and non-exhaustive matches must be errors. Also: the same variable name at different positions of different arms, tuple patterns of other arity, nested matches that use outer bindings (with a decoy global), tail recursion whose pattern variables are renamed or swapped, broadcasts of u64 / u8 / i64 / f32 functions over non-square matrices.",
    note="Guards are only generated where the grammar has them (match expressions); a worker abort (stack overflow) is reported as a violation.",
    ref="6/C16"),
  "C17": dict(
    technique="runtime monitoring: offline trace checker over Interpreter::trace_events (start/step/arm/guard/transition/output events) against a reference simulation of generated transition systems; transition limit decided on the count of step events",
-   text="Generated machines (1-4 states, two payload fields, overlapping guards, fallbacks, loops) are run on inputs 0..7 with tracing on; every traced transition (arm index, next state, payload values) and the output must equal the reference simulation; ill-formed machines (wrong argument kind, undeclared target, declared but unimplemented state) must be rejected; non-terminating machines must stop with an error after exactly max_steps step events.",
+   text="Generated machines (1-4 states, two payload fields, overlapping guards, fallbacks, loops) are run on inputs 0..7 with tracing on; every traced transition (arm index, next state, payload values) and the output must equal the reference simulation; ill-formed machines (wrong argument kind, undeclared target, declared but unimplemented state) must be rejected; non-terminating machines must stop with an error after exactly max_steps step events. Half of the multi-branch states are written as two arms for the same state (fall-through); array state patterns re-bind prefix / suffix variables across steps; machines are invoked from transitions and comprehensions with local names, and wrong-kind elements in a comprehension must be rejected.",
    note="Trace parsing relies on the rendered event messages (arm[i] ... -> :State(...) u64(@addr:value)); an unparsable transition event makes the case inconclusive, never a violation.",
    ref="6/C17"),
  "C18": dict(
    technique="runtime monitoring: relational-algebra reference joins over canonical rows compared (as multisets over the union of columns, with column kinds) with interpreted join expressions on generated tables; ordered comparison for row selection",
-   text="Pairs of generated tables (1-3 columns, 0-2 shared names, 1-5 rows, duplicate keys so that many-to-many matches occur, five column kinds) are joined with all six operators in symbol and word form; the result must be exactly the relational-algebra multiset of rows, columns that can be missing must be optional kinds and hold the empty value exactly in unmatched rows; selecting rows by index, repeated index vector and mask must return exactly those rows in order.",
+   text="Pairs of generated tables (1-3 columns, 0-2 shared names, 1-5 rows, duplicate keys so that many-to-many matches occur, five column kinds) are joined with all six operators in symbol and word form; the result must be exactly the relational-algebra multiset of rows, columns that can be missing must be optional kinds and hold the empty value exactly in unmatched rows; selecting rows by index, repeated index vector and mask must return exactly those rows in order. Selections are also chained on temporary tables (vector then vector, mask then vector) and one mask in six selects no row.",
    note="An empty result may be a 0-row table or an error; single-row tables are not selected through a one-element mask (that literal is a scalar).",
    ref="6/C18"),
 }
